@@ -170,11 +170,13 @@ def run(chk, failed):
         "expired/too_old: (now - expire-group) * 1000 is int64 arithmetic; theorems expired_spec/too_old_spec hold under in_i64((now-expire)*1000), "
         "the example C09_expiry_guard_needed shows the wrap outside it; generated expire-group values go up to the edge of that guard "
         "(now0 + 2^63 div 1000), never beyond",
-        "consumerGroup.lastCommit is (since fix 989bf1d) the largest timestamp among the commits the group's rings stored and never "
-        "decreases (C09_g_last_after_commit, C09_g_last_monotone); not-found <-> lastCommit older than the cut-off "
-        "(C09_purged_iff_newest_commit_expired_partial; not proved: the state invariant `every stored timestamp <= lastCommit`); the expiry "
-        "oracle demands: all sent commits old => not found; a stored commit inside the expiry time seen in an earlier reply and no deletion "
-        "since => reported",
+        "consumerGroup.lastCommit is (since fix 989bf1d) the largest own timestamp among the commits the group's rings stored and never "
+        "decreases (C09_stored_commit_raises_last, C09_g_last_after_commit, C09_g_last_monotone); in every reachable state every stored commit's "
+        "timestamp is <= lastCommit (C09_stored_timestamps_below_last), hence a group reported not found stores only commits older than the "
+        "cut-off (C09_purged_only_if_all_stored_expired, all histories, inside the int64 guard); not-found <-> lastCommit older than the cut-off "
+        "(C09_notfound_iff_newest_commit_expired); the converse `all stored timestamps old => not found` is false by design (min-distance merge, "
+        "ring eviction: C09_ex_all_stored_expired_yet_reported); the expiry oracle demands: all sent commits old => not found; a certainly stored "
+        "commit whose own timestamp is inside the expiry time, or a stored commit seen in an earlier reply, and no deletion since => reported",
         "a group left without topics: delete-topic keeps it listed (empty); delete-group-topic of its last topic removes it (documented "
         "mechanism, accepted); delete-group-topic of a topic it does not consume changes nothing (fix c5037b9, "
         "C09_delete_foreign_topic_changes_nothing) - a hard failure of the oracle when the bracket shows the group did not consume the topic",
